@@ -1189,10 +1189,20 @@ func genCCFBOpt(r *rand.Rand, firstf *uint16) ([]opJ, []string) {
 	ns := 1 + r.Intn(3)
 	var streams []stream
 	dep := depStart(r)
+	var fam []uint32
+	famSeq := uint16(r.Intn(65536)) //nolint:gosec
+	if r.Intn(4) == 0 {
+		var name string
+		fam, name = ssrcFamily(r, ns)
+		tags[name] = true
+	}
 	for s := 0; s < ns; s++ {
 		st := stream{ssrc: uint32(r.Intn(4)), first: uint16(r.Intn(65536)), n: 3 + r.Intn(40)} //nolint:gosec
 		if r.Intn(2) == 0 {
 			st.ssrc = r.Uint32()
+		}
+		if fam != nil {
+			st.ssrc, st.first = fam[s], famSeq
 		}
 		if r.Intn(4) == 0 {
 			st.first = uint16(65536 - r.Intn(20)) //nolint:gosec
@@ -1324,11 +1334,32 @@ func genFBOpt(r *rand.Rand, tseq0f, seq0f *uint16) ([]ropJ, []string) {
 	}
 	ns := 1 + r.Intn(3)
 	var streams []*st
+	// SSRC bit patterns: small distinct numbers, or a family of SSRCs that differ in few bits
+	// (then, mostly, every stream numbers its packets from the same RTP sequence number)
+	var fam []uint32
+	famSeq := -1
+	if r.Intn(3) == 0 {
+		var name string
+		fam, name = ssrcFamily(r, ns)
+		tags[name] = true
+		if r.Intn(4) != 0 {
+			famSeq = r.Intn(65536)
+		}
+	}
 	for i := 0; i < ns; i++ {
 		x := &st{ssrc: uint32(10 + i), tw: r.Intn(2) == 0, seq: uint16(r.Intn(65536))} //nolint:gosec
+		if fam != nil {
+			x.ssrc = fam[i]
+			if r.Intn(3) != 0 {
+				x.tw = false
+			}
+		}
 		if r.Intn(4) == 0 {
 			x.seq = uint16(65536 - r.Intn(30)) //nolint:gosec
 			tags["rtp-wrap"] = true
+		}
+		if famSeq >= 0 {
+			x.seq = uint16(famSeq) //nolint:gosec
 		}
 		if seq0f != nil {
 			x.seq = *seq0f
@@ -1799,7 +1830,14 @@ func handCCFBAt(r *rand.Rand, streams []stream, now int64) []byte {
 		}
 		ssrc := s.ssrc
 		if r.Intn(8) == 0 {
-			ssrc += 1000
+			used := map[uint32]bool{}
+			for _, t := range streams {
+				used[t.ssrc] = true
+			}
+			for _, b := range fb.ReportBlocks {
+				used[b.MediaSSRC] = true
+			}
+			ssrc = aliasOf(r, ssrc, used)
 		}
 		rb := rtcp.CCFeedbackReportBlock{MediaSSRC: ssrc, BeginSequence: s.first - uint16(r.Intn(3))} //nolint:gosec
 		for i := 0; i < s.n+r.Intn(4); i++ {
@@ -1869,7 +1907,29 @@ func main() {
 		})
 	}
 	sets = append(sets, mcSets...)
+	// one interceptor, streams with header-extension ids of their own (Check/C09ExtCheck.v)
+	const nWS = 2
+	var wsSets []*cq.Set
+	for i := 0; i < nWS; i++ {
+		wsSets = append(wsSets, &cq.Set{
+			Name: fmt.Sprintf("c09ws%d", i), Import: "IV.Check.C09ExtCheck", CaseType: "ws_case",
+			Checks: []string{"ws_mismatches", "ws_spec_failures"},
+		})
+	}
+	sets = append(sets, wsSets...)
 	var fails []cq.ImplFailure
+	wsCount := 0
+	addWS := func(ops []wopJ, buckets ...string) {
+		c, p := runWS(ops)
+		if p != "" {
+			fails = append(fails, cq.ImplFailure{Kind: "panic", Detail: p, Case: wsCase{Ops: ops}})
+
+			return
+		}
+		set := wsSets[wsCount%nWS]
+		wsCount++
+		set.Cases = append(set.Cases, c.toCase(buckets...))
+	}
 	mfCount := 0
 	addMF := func(fac []int, ops []mropJ, buckets ...string) {
 		c, p := runFBMulti(fac, ops)
@@ -1930,6 +1990,13 @@ func main() {
 		if set == "impl-panic" {
 			cq.LoadReplay(o.Replay, &fbProbe)
 			for _, op := range fbProbe.Ops {
+				if op.K == "bind" {
+					set = "c09ws"
+				}
+			}
+		}
+		if set == "impl-panic" {
+			for _, op := range fbProbe.Ops {
 				if op.K == "read" || op.K == "send" {
 					set = "c09fb"
 				}
@@ -1944,6 +2011,10 @@ func main() {
 			var c fbCase
 			cq.LoadReplay(o.Replay, &c)
 			addFB(c.Ops, "replay")
+		case strings.HasPrefix(set, "c09ws"):
+			var c wsCase
+			cq.LoadReplay(o.Replay, &c)
+			addWS(c.Ops, "replay")
 		case strings.HasPrefix(set, "c09mf"):
 			var c mfbCase
 			cq.LoadReplay(o.Replay, &c)
@@ -1968,6 +2039,10 @@ func main() {
 			var c fbCase
 			cq.LoadReplay(f, &c)
 			addFB(c.Ops, "corpus")
+		case strings.HasPrefix(set, "c09ws"):
+			var c wsCase
+			cq.LoadReplay(f, &c)
+			addWS(c.Ops, "corpus")
 		case strings.HasPrefix(set, "c09mf"):
 			var c mfbCase
 			cq.LoadReplay(f, &c)
@@ -2016,10 +2091,28 @@ func main() {
 		nad, ops, tags := genCCMulti(rm)
 		addMC(nad, ops, tags...)
 	}
+	// round 5: SSRC families with equal sequence numbers in flight; streams with header-extension
+	// ids of their own (own PRNG stream again)
+	r5 := rand.New(rand.NewSource(o.Seed ^ 0x5235)) //nolint:gosec
+	for i := 0; i < o.Scale(24, 1500); i++ {
+		ops, tags := genFBAlias(r5)
+		addFB(ops, tags...)
+	}
+	for i := 0; i < o.Scale(16, 1000); i++ {
+		ops, tags := genCCAlias(r5)
+		addCC(ops, tags...)
+	}
+	for i := 0; i < o.Scale(60, 4000); i++ {
+		ops, tags := genWS(r5)
+		addWS(ops, tags...)
+	}
 	cq.Write(o, "cc: send histories (TWCC-keyed and (SSRC, seq)-keyed, wrap, holes, more than 250 in flight) with 1..6 "+
 		"parser-accepted feedback packets (real recorders and hand-structured); non-trivial = at least one "+
 		"acknowledgement of a sent packet was returned; fb: rtpfb interceptor histories (TWCC- and (SSRC, seq)-tracked streams, "+
 		"retransmissions, reads with TWCC/CCFB/other RTCP and compounds); non-trivial = at least one PacketReport; "+
 		"mf / mc: the same histories on two or three interceptors (one factory or several) resp. FeedbackAdapters, "+
-		"interleaved, mostly with the same SSRCs and sequence numbers on every instance", sets, nil, fails)
+		"interleaved, mostly with the same SSRCs and sequence numbers on every instance; ws: one rtpfb interceptor, two to four "+
+		"local streams that negotiated transport-wide-cc under ids of their own, packets with further header-extension elements "+
+		"(also under other streams' ids); SSRCs of fb/cc/ws cases: small numbers or families differing in few bits with equal "+
+		"sequence numbers in flight", sets, nil, fails)
 }
